@@ -43,27 +43,45 @@
 
 static int h_posix_memalign(void **out, size_t align, size_t size);
 static void h_free(void *p);
-#ifdef SBAHEAP_LINKWRAP
+#if defined(SBAHEAP_BLACKBOX)
+/* Third build: public API only, linked against the library's own object code (the shipped optimisation level, the shipped
+ * page size), posix_memalign / free redirected at link time.  Nothing here depends on how allocator_sba.c is written, so
+ * this build keeps working when its private structures are rearranged; the two white-box builds are skipped on such a tree.
+ * Instead of the allocator's own lists the canonical state carries what the harness can know: the order in which the
+ * currently unused small blocks were released, and the raw header bytes at every page-aligned address of the heap. */
+#    define SBAHEAP_LINKWRAP 1
+int __real_posix_memalign(void **out, size_t align, size_t size);
+void __real_free(void *p);
+static size_t g_page = 4096, g_page_hdr = 32;
+#    define PAGE g_page
+#    define PAGE_HDR g_page_hdr
+#elif defined(SBAHEAP_LINKWRAP)
 /* Second build of this harness (-O2, the optimisation level of the shipped library): allocator_sba.c calls posix_memalign
  * and free under their real names and the calls are redirected at link time (-Wl,--wrap), so the compiler knows that it is
  * looking at free() - and may treat stores into the block just before it as dead.  What the source says it erases before
  * giving memory back and what the object code erases are then two things; this build observes the second. */
 int __real_posix_memalign(void **out, size_t align, size_t size);
 void __real_free(void *p);
-#include "allocator_sba.c"
+#    include "allocator_sba.c"
+#    define PAGE ((size_t)AWS_SBA_PAGE_SIZE)
+#    define PAGE_HDR sizeof(struct page_header)
 #else
-#define posix_memalign h_posix_memalign
-#define free h_free
-#include "allocator_sba.c" /* the working tree's file, found through -I<repo>/source */
-#undef posix_memalign
-#undef free
+#    define posix_memalign h_posix_memalign
+#    define free h_free
+#    include "allocator_sba.c" /* the working tree's file, found through -I<repo>/source */
+#    undef posix_memalign
+#    undef free
+#    define PAGE ((size_t)AWS_SBA_PAGE_SIZE)
+#    define PAGE_HDR sizeof(struct page_header)
 #endif
-
-#define PAGE ((size_t)AWS_SBA_PAGE_SIZE)
 
 /* ================================================================ the one heap */
 #define OH_BASE ((uintptr_t)0x520000000000ull)
-#define OH_SIZE ((size_t)40 * 1024)
+#ifdef SBAHEAP_BLACKBOX
+#    define OH_SIZE ((size_t)96 * 1024)
+#else
+#    define OH_SIZE ((size_t)40 * 1024)
+#endif
 #define OH_HDR 16
 #define OH_MIN 32 /* smallest chunk: header + room for the links */
 #define OH_MAGIC 0x0e4ea9u
@@ -160,11 +178,12 @@ static uint8_t *oh_page_containing(const uint8_t *p, size_t n) {
     for (size_t c = 0; c < OH_SIZE; c += oh_at(c)->size) {
         if (oh_at(c)->kind != K_PAGE) continue;
         uint8_t *pg = oh + c + OH_HDR;
-        if (p >= pg + sizeof(struct page_header) && p + n <= pg + PAGE) return pg;
+        if (p >= pg + PAGE_HDR && p + n <= pg + PAGE) return pg;
     }
     return NULL;
 }
 
+static void rel_forget_range(size_t lo, size_t hi);
 static int h_posix_memalign(void **out, size_t align, size_t size) {
     ESX_CHECK(align == PAGE && size == PAGE, "page-request", "allocator_sba.c asked the OS for %zu bytes aligned to %zu; one page is %zu", size, align, PAGE);
     *out = oh_alloc(size, align, K_PAGE);
@@ -174,6 +193,7 @@ static int h_posix_memalign(void **out, size_t align, size_t size) {
 static void h_free(void *p) {
     ++oh_page_frees;
     if (g_new_op) V_COUNT("pages_freed", 1);
+    if ((uint8_t *)p >= oh && (uint8_t *)p < oh + OH_SIZE) rel_forget_range((size_t)((uint8_t *)p - oh), (size_t)((uint8_t *)p - oh) + PAGE);
     if (!oh_release(p, K_PAGE)) esx_fail("page-free-invalid", "allocator_sba.c released heap offset %ld as a page; it is not the start of a live page", (long)((uint8_t *)p - oh));
 }
 #ifdef SBAHEAP_LINKWRAP
@@ -213,7 +233,32 @@ struct slot {
 };
 static struct slot sl[NSLOT];
 static struct aws_allocator *g_sba;
+#ifndef SBAHEAP_BLACKBOX
 static struct small_block_allocator *impl(void) { return (struct small_block_allocator *)g_sba->impl; }
+/* does the page-aligned heap address a still carry both tag words of a page header? */
+static int page_tagged(const void *a, uint32_t *count) {
+    const struct page_header *ph = (const struct page_header *)a;
+    if ((const uint8_t *)a < oh || (const uint8_t *)a + sizeof(struct page_header) > oh + OH_SIZE) return 0;
+    if (count) *count = ph->alloc_count;
+    return ph->tag == AWS_SBA_TAG_VALUE && ph->tag2 == AWS_SBA_TAG_VALUE;
+}
+#else
+static int page_tagged(const void *a, uint32_t *count) { /* what a header looks like is the library's business */
+    (void)a;
+    if (count) *count = 0;
+    return 0;
+}
+#endif
+/* black-box image of the allocator's free lists: heap offsets of the small blocks handed back and not handed out again,
+ * in the order of their release (part of the canonical state of the black-box build) */
+static uint32_t rel_order[64];
+static int nrel;
+static void rel_forget_range(size_t lo, size_t hi) {
+    int w = 0;
+    for (int i = 0; i < nrel; ++i)
+        if (!(rel_order[i] >= lo && rel_order[i] < hi)) rel_order[w++] = rel_order[i];
+    nrel = w;
+}
 
 static const size_t op_size[4] = {512, 600, 1400, 600};
 static const int op_write[4] = {1, 0, 0, 1};
@@ -237,11 +282,20 @@ static void m_reset(void) {
     memset(sl, 0, sizeof(sl));
     g_new_op = 0;
     g_lives = 0;
+    nrel = 0;
     g_sba = aws_small_block_allocator_new(&par, false);
     if (!g_sba) {
         fprintf(stderr, "sbaheap: aws_small_block_allocator_new failed\n");
         _exit(2);
     }
+#ifdef SBAHEAP_BLACKBOX
+    g_page = aws_small_block_allocator_page_size(g_sba);
+    g_page_hdr = g_page - aws_small_block_allocator_page_size_available(g_sba);
+    if (g_page < 1024 || (g_page & (g_page - 1)) || g_page_hdr >= g_page / 2 || g_page * 8 > OH_SIZE) {
+        fprintf(stderr, "sbaheap: page size %zu / header %zu is outside what this harness's heap is laid out for\n", g_page, g_page_hdr);
+        _exit(2);
+    }
+#endif
 }
 static bool m_enabled(int op) {
     if (op < OP_REL) return lowest_free() >= 0;
@@ -303,6 +357,7 @@ static void m_apply(int op) {
     if (op < OP_REL) {
         int s = lowest_free();
         size_t n = op_size[op];
+        size_t active0 = aws_small_block_allocator_bytes_active(g_sba);
         uint8_t *p = (uint8_t *)aws_mem_acquire(g_sba, n);
         if (!p) {
             esx_fail("acquire-null", "%s returned NULL", what);
@@ -311,7 +366,22 @@ static void m_apply(int op) {
         sl[s].live = 1;
         sl[s].ptr = p;
         sl[s].req = n;
+#ifndef SBAHEAP_BLACKBOX
         sl[s].cls = n <= 512 ? 512 : 0;
+        (void)active0;
+#else
+        /* the size class of a block is what bytes_active grew by when it was handed out: at least the request for a small
+         * block, nothing for a block the parent serves, the same for every block of that request size */
+        sl[s].cls = aws_small_block_allocator_bytes_active(g_sba) - active0;
+        if (g_verify) {
+            if (n <= 512)
+                ESX_CHECK(sl[s].cls >= n && sl[s].cls <= 1024, "class-too-small", "%s: bytes_active grew by %zu for a %zu-byte block", what, sl[s].cls, n);
+            else
+                ESX_CHECK(sl[s].cls == 0, "large-not-forwarded", "%s: bytes_active grew by %zu for a %zu-byte block, which the parent allocator serves", what, sl[s].cls, n);
+            if (esx_failed) return;
+        }
+#endif
+        if (p >= oh && p < oh + OH_SIZE) rel_forget_range((size_t)(p - oh), (size_t)(p - oh) + 1);
         sl[s].written = op_write[op];
         if (p < oh || p + n > oh + OH_SIZE) {
             esx_fail("outside-heap", "%s returned memory outside the heap", what);
@@ -322,10 +392,8 @@ static void m_apply(int op) {
         sl[s].sum = sum_of(p, n);
         if (g_new_op && !op_write[op]) {
             /* vacuity: did the unwritten block inherit a page header that still carries both tags? */
-            for (uintptr_t a = ((uintptr_t)p + PAGE - 1) & ~(uintptr_t)(PAGE - 1); a + sizeof(struct page_header) <= (uintptr_t)p + n; a += PAGE) {
-                const struct page_header *ph = (const struct page_header *)a;
-                if (ph->tag == AWS_SBA_TAG_VALUE && ph->tag2 == AWS_SBA_TAG_VALUE) V_COUNT("unwritten_block_covers_stale_page_header", 1);
-            }
+            for (uintptr_t a = ((uintptr_t)p + PAGE - 1) & ~(uintptr_t)(PAGE - 1); a + PAGE_HDR <= (uintptr_t)p + n; a += PAGE)
+                if (page_tagged((const void *)a, NULL)) V_COUNT("unwritten_block_covers_stale_page_header", 1);
         }
     } else if (op == OP_RESTART) {
         aws_small_block_allocator_destroy(g_sba);
@@ -333,12 +401,11 @@ static void m_apply(int op) {
         if (esx_failed) return;
         if (g_verify) heap_whole("destroy of an idle allocator");
         if (g_new_op) {
-            for (size_t a = 0; a + sizeof(struct page_header) <= OH_SIZE; a += PAGE) {
-                const struct page_header *ph = (const struct page_header *)(oh + a);
-                if (ph->tag == AWS_SBA_TAG_VALUE && ph->tag2 == AWS_SBA_TAG_VALUE) V_COUNT("page_tags_left_in_freed_memory_at_destroy", 1);
-            }
+            for (size_t a = 0; a + PAGE_HDR <= OH_SIZE; a += PAGE)
+                if (page_tagged(oh + a, NULL)) V_COUNT("page_tags_left_in_freed_memory_at_destroy", 1);
         }
         ++g_lives;
+        nrel = 0;
         g_sba = aws_small_block_allocator_new(&par, false);
         if (!g_sba) {
             esx_fail("new-failed", "aws_small_block_allocator_new failed in the second life");
@@ -349,12 +416,12 @@ static void m_apply(int op) {
         uint64_t pr = oh_parent_releases, pf = oh_page_frees;
         int large = sl[s].req > 512;
         if (g_new_op && large) {
-            const struct page_header *ph = (const struct page_header *)((uintptr_t)sl[s].ptr & ~(uintptr_t)(PAGE - 1));
-            if ((const uint8_t *)ph >= oh && ph->tag == AWS_SBA_TAG_VALUE && ph->tag2 == AWS_SBA_TAG_VALUE) V_COUNT("large_release_below_stale_tags", 1);
+            if (page_tagged((const void *)((uintptr_t)sl[s].ptr & ~(uintptr_t)(PAGE - 1)), NULL)) V_COUNT("large_release_below_stale_tags", 1);
         }
         aws_mem_release(g_sba, sl[s].ptr);
         sl[s].live = 0;
         if (esx_failed) return;
+        if (!large && nrel < 64 && oh_page_containing(sl[s].ptr, 1)) rel_order[nrel++] = (uint32_t)(sl[s].ptr - oh);
         if (g_verify) {
             if (large)
                 ESX_CHECK(oh_parent_releases == pr + 1 && oh_last_parent_release == sl[s].ptr, "large-release-not-forwarded",
@@ -370,13 +437,11 @@ static void m_apply(int op) {
         char d[1500];
         size_t o = 0;
         for (size_t c = 0; c < OH_SIZE && o + 60 < sizeof(d); c += oh_at(c)->size) {
-            const struct page_header *ph = (const struct page_header *)(oh + ((c + OH_HDR + PAGE - 1) & ~(PAGE - 1)));
             o += (size_t)snprintf(d + o, sizeof(d) - o, " %zu:%s%u", c, oh_at(c)->kind == K_FREE ? "free" : (oh_at(c)->kind == K_PAGE ? "PAGE" : "blk"), oh_at(c)->size);
-            (void)ph;
         }
-        for (size_t a = 0; a + sizeof(struct page_header) <= OH_SIZE && o + 40 < sizeof(d); a += PAGE) {
-            const struct page_header *ph = (const struct page_header *)(oh + a);
-            if (ph->tag == AWS_SBA_TAG_VALUE && ph->tag2 == AWS_SBA_TAG_VALUE) o += (size_t)snprintf(d + o, sizeof(d) - o, " tags@%zu(count %u)", a, ph->alloc_count);
+        for (size_t a = 0; a + PAGE_HDR <= OH_SIZE && o + 40 < sizeof(d); a += PAGE) {
+            uint32_t cnt = 0;
+            if (page_tagged(oh + a, &cnt)) o += (size_t)snprintf(d + o, sizeof(d) - o, " tags@%zu(count %u)", a, cnt);
         }
         v_out("INFO   heap after %s:%s", what, d);
     }
@@ -422,6 +487,7 @@ static size_t m_canon(uint8_t *buf, size_t cap) {
             PUT(sl[s].written);
         }
     }
+#ifndef SBAHEAP_BLACKBOX
     struct small_block_allocator *sba = impl();
     for (int b = 0; b < AWS_SBA_BIN_COUNT; ++b) {
         struct sba_bin *bin = &sba->bins[b];
@@ -449,12 +515,26 @@ static size_t m_canon(uint8_t *buf, size_t cap) {
             PUT(ph->alloc_count);
         }
     }
+#else
+    PUT(nrel);
+    for (int i = 0; i < nrel; ++i) PUT(rel_order[i]);
+    PUT(aws_small_block_allocator_bytes_active(g_sba));
+    PUT(aws_small_block_allocator_bytes_reserved(g_sba));
+    /* whatever old and current pages have at their base: the heap is at a fixed address, pointers in there are stable */
+    for (size_t a = 0; a + PAGE_HDR <= OH_SIZE; a += PAGE) {
+        uint32_t w = 0;
+        for (size_t i = 0; i < PAGE_HDR; ++i) w = w * 31u + oh[a + i];
+        PUT(w);
+    }
+#endif
     return o;
 }
 
 int main(int argc, char **argv) {
     v_init(argc, argv);
-#ifdef SBAHEAP_LINKWRAP
+#if defined(SBAHEAP_BLACKBOX)
+#    define MODEL_NAME "sbaheap-blackbox"
+#elif defined(SBAHEAP_LINKWRAP)
 #    define MODEL_NAME "sbaheap-2048-O2"
 #else
 #    define MODEL_NAME "sbaheap-2048"
